@@ -172,10 +172,7 @@ func (c *Class) Evaluation(
 
 		parentNode := base.ClassNode{Frame: parentFrame, Class: parentClass}
 
-		if !slices.Contains(base.ClassInheritanceMap[classNode], parentNode) {
-			base.ClassInheritanceMap[classNode] =
-				append(base.ClassInheritanceMap[classNode], parentNode)
-		}
+		base.AppendParentClassNode(classNode, parentNode)
 
 	default:
 		p.Unget()
